@@ -115,6 +115,10 @@ def marker_like_wallet(rng, gd):
 
 
 def make_device(rng, platform, mode, onboarded, echo):
+    if echo is False:
+        # some kind of wrong echo (pv/simdev/device.py: differing, short, long, error...)
+        from ..simdev.device import ECHO_KINDS
+        echo = rng.choice(ECHO_KINDS)
     gd, dev = make_device_(rng, platform, mode, onboarded, echo)
     marker_like_wallet(rng, gd)
     return gd, dev
